@@ -18,7 +18,8 @@ type World struct {
 	Prog *Node   `json:"prog,omitempty"`
 	Src  string  `json:"src,omitempty"` // exact text handed to Compile (derived from Prog; informational)
 
-	Progs []*Node `json:"progs,omitempty"` // further programs (multi-expression worlds)
+	Progs []*Node    `json:"progs,omitempty"` // further programs (multi-expression worlds)
+	Exprs []ExprSpec `json:"exprs,omitempty"` // shared compiled expressions (multi-task worlds)
 
 	// Calls are the calls into the library with what the environment does during each.
 	Calls []Plan `json:"calls,omitempty"`
@@ -36,6 +37,13 @@ type World struct {
 	Sched []int             `json:"sched,omitempty"`  // explicit schedule: scheduler choices in order
 	ChCap int               `json:"ch_cap,omitempty"` // EventChan capacity
 	Extra map[string]string `json:"extra,omitempty"`
+}
+
+// ExprSpec says how one shared expression is compiled.
+type ExprSpec struct {
+	Prog  int    `json:"prog"`
+	Mask  int    `json:"mask"`
+	Event string `json:"event,omitempty"`
 }
 
 // Step is one API call of a history or of a task script.
